@@ -1,9 +1,11 @@
 package callsim
 
 import (
+	"encoding/binary"
 	"encoding/json"
 	"fmt"
 	"hash/fnv"
+	"os"
 	"time"
 
 	"verifsim/corpus"
@@ -22,6 +24,9 @@ type Config struct {
 	RepoDir  string
 	Known    []evid.Finding
 	Journal  string
+	// EmitAt >= 0: do not execute anything; regenerate the stream of worlds and write number EmitAt to EmitOut.
+	EmitAt  int64
+	EmitOut string
 }
 
 // library: what worlds are drawn from.
@@ -312,6 +317,38 @@ type runner struct {
 	recent []*Case // the last few worlds this process executed
 	worlds        int64
 	pristineEvery int64
+	seq           int64
+	journal       *os.File
+}
+
+// gate is called with every world before it is executed. It returns false when the world must not be executed
+// (emit mode). In normal mode it journals the world's sequence number, so that the driver can find out which
+// world a worker was executing when the Go runtime killed it.
+func (rn *runner) gate(c *Case) bool {
+	seq := rn.seq
+	rn.seq++
+	if rn.cfg.EmitOut != "" {
+		if seq == rn.cfg.EmitAt {
+			cc := cloneCase(c)
+			if cc.Prop == "C17" && cc.Sched == nil {
+				cc.Sched = &Schedule{}
+				cc.Policy = "serial (regenerated after a worker crash; the original schedule died with the worker)"
+			}
+			raw, _ := json.Marshal(cc)
+			os.WriteFile(rn.cfg.EmitOut, raw, 0o644)
+			rn.stop = true
+		}
+		return false
+	}
+	if rn.journal == nil && rn.cfg.Journal != "" {
+		rn.journal, _ = os.Create(rn.cfg.Journal)
+	}
+	if rn.journal != nil {
+		var b [8]byte
+		binary.LittleEndian.PutUint64(b[:], uint64(seq))
+		rn.journal.WriteAt(b[:], 0)
+	}
+	return true
 }
 
 // pristineDue: one world in pristineEvery (small ones only) is judged against pristine-process references.
@@ -347,7 +384,12 @@ func (rn *runner) remember(c *Case) {
 	}
 }
 
-func (rn *runner) expired() bool { return rn.stop || time.Now().After(rn.cfg.Deadline) }
+func (rn *runner) expired() bool {
+	if rn.cfg.EmitOut != "" {
+		return rn.stop
+	}
+	return rn.stop || time.Now().After(rn.cfg.Deadline)
+}
 
 func (rn *runner) note(c *Case, wr *worldRun) {
 	st := rn.st
@@ -460,6 +502,9 @@ func Worker02(cfg Config) *evid.Stats {
 		st.Trouble = append(st.Trouble, "no sample models under "+cfg.RepoDir)
 	}
 	one := func(c *Case) {
+		if !rn.gate(c) {
+			return
+		}
 		wr := execute(c, nil, false, true)
 		rc := rn.rc
 		if rn.pristineDue(c) {
